@@ -36,6 +36,8 @@ def _worker(task):
             for cname, ent in r["clauses"].items():
                 if ent["status"] == "refuted":
                     for cex in ent.get("cex", []):
+                        if "replay" in cex:
+                            continue
                         if cex.get("oracle") is None:
                             cex["replay"] = {"status": "no-model"}
                             continue
